@@ -134,6 +134,26 @@ def _mat_max(interp, self: Mat, args, kwargs):
 @lib("numpy.allclose", "numpy.isclose")
 def np_allclose(interp, args, kwargs):
     a, b = args[0], args[1]
+    if isinstance(a, Vec) and isinstance(b, Mat) and conc(a.length) is not None and conc(a.length) <= 8:
+        # np.isclose(k, M): row-wise broadcast, |k_j - M_ij| <= atol + rtol |M_ij|
+        ctx = interp.ctx
+        if not ctx.branch(zint(b.cols) == zint(a.length), "isclose-broadcast"):
+            raise PyRaise("ValueError", "operands could not be broadcast together")
+        rtol = as_real(to_num(kwargs.get("rtol", lift(1e-5))))
+        atol = as_real(to_num(kwargs.get("atol", lift(1e-8))))
+        ks = [as_real(to_num(vget(ctx, a, j))) for j in range(conc(a.length))]
+        src = b.buf.fn
+
+        def fn(i, j):
+            cj = conc(j)
+            x = ks[cj] if cj is not None else None
+            if x is None:
+                raise Unsupported("symbolic column in isclose")
+            y = as_real(to_num(src(i, cj)))
+            d = z3.If(x - y >= 0, x - y, y - x)
+            ay = z3.If(y >= 0, y, -y)
+            return Bool(d <= atol + rtol * ay)
+        return Mat(b.rows, b.cols, fn, elem="bool")
     if isinstance(a, Vec) and isinstance(b, (Num, Bool)) and conc(a.length) is not None and conc(a.length) <= 8:
         # np.allclose(v, c): every |v_k - c| <= atol + rtol |c|   (empty -> True)
         ctx = interp.ctx
